@@ -14,6 +14,7 @@ import itertools
 import pickle
 import sys
 import types
+import zlib
 
 import attr
 import attrs
@@ -39,7 +40,14 @@ RULE = (
     "with <=3 fields, scripted ==-classes / hash codes / key function on {0,1,2}, 1-2 instances and histories of <=9 "
     "operations (hash / copy / deepcopy / pickle protocols 2-5 / evolve / field write), 30% of them scripted as hash, derive, "
     "write to the derived instance, hash both; non-trivial = a hash operation on a class with an attrs-generated hash, or a "
-    "table row that is not the default row (attr.s, nothing passed, no base); distinct = distinct JSON case. Harness-only "
+    "table row that is not the default row (attr.s, nothing passed, no base); distinct = distinct JSON case. Histories also "
+    "contain attr.assoc (modelled: copy.copy, object.__setattr__ per change, a carried-over cached hash cleared); a change block "
+    "runs hash, assoc/evolve with every non-empty set of changed fields, hash of the result and of the original, for every "
+    "per-field eq x hash setting of 1 and 2 fields (incl. eq=False with hash=True), mostly on dict cache_hash classes. "
+    "Every class chain is built with its own key-function object, and every chain defines classes of the same module and "
+    "qualified names (C0, C1, ...), mostly with coinciding field layouts and differing options: a key function that runs "
+    "for a class of another build returns a value equal to nothing and is not counted, so state that attrs keeps across "
+    "class definitions per name/layout shows as unstable or unequal hashes and missing key calls. Harness-only "
     "variation the model is independent of: the exception root (Exception, BaseException, KeyboardInterrupt, SystemExit, "
     "GeneratorExit, ValueError) of every exception-rooted row and of 12% of the random chains (whose instances are hashed, "
     "evolved and written, not copied); field names written private (_x), dunder-like (__x, mangled) or with an explicit "
@@ -104,14 +112,37 @@ class V:
         return (V, (self.n,))
 
 
-def KEY(v):
-    COUNT["key"] += 1
-    return V(KEYMAP[v.n])
+ACTIVE_TAGS: set = set()
+_TAG = [0]
+
+
+class Poison:
+    """what a key function returns when it runs for a class it was not given to: equal to nothing, hashes by identity"""
+    __slots__ = ()
+
+
+def make_key():
+    """a fresh key function object per class-chain build.  Every chain defines classes of the same module and
+    qualified names (C0, C1, ...), so anything attrs keeps per (module, qualname, layout) across class definitions
+    would hand one build's key function to another build's class: such a call does not count as a key call of the
+    case under observation and poisons the value"""
+    _TAG[0] += 1
+    tag = _TAG[0]
+
+    def key(v):
+        if tag not in ACTIVE_TAGS:
+            return Poison()
+        COUNT["key"] += 1
+        return V(KEYMAP[v.n])
+
+    key.tag = tag
+    return key
 
 
 # ----------------------------------------------------------------------------------------------- class builder
 _MOD = "c04mod"
 _CACHE: dict = {}
+_BUILDS = [0]
 
 
 def _kw(c):
@@ -179,13 +210,19 @@ def _kind(cls, orig):
 
 
 def _build_chain(root, chain, register):
-    """returns (kinds, classes or None). classes is None when a definition failed."""
-    ns = {"__name__": _MOD, "attr": attr, "attrs": attrs, "KEY": KEY}
+    """returns (kinds, classes or None, module, tag of the chain's key function). classes is None when a definition failed."""
+    _BUILDS[0] += 1
+    if _BUILDS[0] % 100 == 0:
+        # all chains use the same class names: attrs probes <filename>, <filename>-1, ... in linecache for a free
+        # slot, which gets quadratic unless the generated sources of earlier chains are dropped now and then
+        common.purge_linecache()
+    key = make_key()
+    ns = {"__name__": _MOD, "attr": attr, "attrs": attrs, "KEY": key}
     mod = None
     if register:
         mod = types.ModuleType(_MOD)
         ns = mod.__dict__
-        ns.update({"attr": attr, "attrs": attrs, "KEY": KEY})
+        ns.update({"attr": attr, "attrs": attrs, "KEY": key})
     kinds, classes = [], []
     saved = sys.modules.get(_MOD)
     if mod is not None:
@@ -201,13 +238,13 @@ def _build_chain(root, chain, register):
                     cls = deco(**_kw(c))(cls)
                 except TypeError:
                     kinds.append("typeError")
-                    return kinds, None, mod
+                    return kinds, None, mod, key.tag
                 except ValueError:
                     kinds.append("valueError")
-                    return kinds, None, mod
+                    return kinds, None, mod, key.tag
                 except Exception:  # noqa: BLE001
                     kinds.append("other")
-                    return kinds, None, mod
+                    return kinds, None, mod, key.tag
                 ns[f"C{k}"] = cls
             kinds.append(_kind(cls, orig))
             classes.append(cls)
@@ -217,7 +254,7 @@ def _build_chain(root, chain, register):
                 sys.modules.pop(_MOD, None)
             else:
                 sys.modules[_MOD] = saved
-    return kinds, classes, mod
+    return kinds, classes, mod, key.tag
 
 
 def _root(case):
@@ -231,6 +268,24 @@ def _chain_key(root, chain):
     return repr((root, [sorted((k, repr(v)) for k, v in c.items()) for c in chain]))
 
 
+def _define_decoys(root, chain, key):
+    """Before the chain under observation is defined, define look-alikes of it -- same module, qualified names
+    and field layout, their own key-function object: (1) an identical chain, when a field has a key function;
+    (2) for a quarter of the chains, the chain with one option of its last attrs class flipped (cache_hash, frozen
+    or slots).  Their classes are dropped again; what they leave behind inside attrs must not reach the real
+    classes.  Deterministic per chain, so a replayed case sees the same definition history."""
+    if any(f["eq"] == "key" for c in chain for f in c["fields"]):
+        _build_chain(root, chain, register=False)
+    h = zlib.crc32(key.encode())
+    idx = [k for k, c in enumerate(chain) if c["api"] != "plain"]
+    if idx and h % 4 == 0:
+        k = idx[-1]
+        flag = ("cacheHash", "frozen", "slots")[(h // 4) % 3]
+        c = chain[k]
+        flipped = dict(c, **{flag: "unset" if c[flag] == "t" else "t"})
+        _build_chain(root, chain[:k] + [flipped] + chain[k + 1:], register=False)
+
+
 def build(case):
     root = _root(case)
     key = _chain_key(root, case["chain"])
@@ -240,13 +295,15 @@ def build(case):
         if len(_CACHE) > 1500:
             _CACHE.clear()
             common.purge_linecache()
-        kinds, classes, mod = _build_chain(root, case["chain"], register=True)
-        got = [kinds, classes, None, mod]
+        _define_decoys(root, case["chain"], key)
+        kinds, classes, mod, tag = _build_chain(root, case["chain"], register=True)
+        got = [kinds, classes, None, mod, {tag}]
         _CACHE[key] = got
     if need_twin and got[1] is not None and got[2] is None:
         # the same chain without cache_hash (same module and qualified names, hence the same type salt)
         tchain = [dict(c, cacheHash="unset") for c in case["chain"]]
-        _, got[2], _ = _build_chain(root, tchain, register=False)
+        _, got[2], _, ttag = _build_chain(root, tchain, register=False)
+        got[4].add(ttag)
     return got
 
 
@@ -313,11 +370,13 @@ def _hash_op(C, T, names, x, alt):
 
 
 def observe(case):
-    global EQC, HCODE, KEYMAP
-    kinds, classes, twin, mod = build(case)
+    global EQC, HCODE, KEYMAP, ACTIVE_TAGS
+    kinds, classes, twin, mod, tags = build(case)
     if classes is None or not (case["insts"] or case["ops"]):
         return {"classes": kinds, "results": []}
     saved_tables = (EQC, HCODE, KEYMAP)
+    saved_tags = ACTIVE_TAGS
+    ACTIVE_TAGS = tags
     saved_mod = sys.modules.get(_MOD)
     EQC, HCODE, KEYMAP = case["eqc"], case["hcode"], case["keyMap"]
     sys.modules[_MOD] = mod
@@ -337,12 +396,12 @@ def observe(case):
             x = insts[i] if i < len(insts) else None
             if x is None:
                 results.append(_plain("other"))
-                if name in ("copy", "deepcopy", "pickle", "evolve"):
+                if name in ("copy", "deepcopy", "pickle", "evolve", "assoc"):
                     insts.append(None)
                 continue
             if name == "hash":
                 results.append(_hash_op(C, T, names, x, arg["alt"]))
-            elif name in ("copy", "deepcopy", "pickle", "evolve"):
+            elif name in ("copy", "deepcopy", "pickle", "evolve", "assoc"):
                 try:
                     if name == "copy":
                         y = copy.copy(x)
@@ -350,6 +409,8 @@ def observe(case):
                         y = copy.deepcopy(x)
                     elif name == "pickle":
                         y = pickle.loads(pickle.dumps(x, proto))
+                    elif name == "assoc":
+                        y = attr.assoc(x, **{names[f]: V(v) for f, v in arg["changes"]})
                     else:
                         y = attr.evolve(x, **{aliases[f]: V(v) for f, v in arg["changes"]})
                     insts.append(y)
@@ -369,6 +430,7 @@ def observe(case):
         return {"classes": kinds, "results": results}
     finally:
         EQC, HCODE, KEYMAP = saved_tables
+        ACTIVE_TAGS = saved_tags
         if saved_mod is None:
             sys.modules.pop(_MOD, None)
         else:
@@ -620,11 +682,13 @@ def _scripted_history(rng, chain, nf, n_insts, copy_ok):
     i = rng.randrange(n_insts)
     j = n_insts
     ops = [{"hash": {"i": i, "alt": _alt_for(rng, nf)}}] if rng.random() < 0.8 else []
-    kinds = ["evolve"] + (["copy", "deepcopy", "pickle"] * 2 if uniform else [])
+    kinds = ["evolve"] + (["copy", "deepcopy", "pickle"] * 2 + ["assoc"] * 3 if uniform else [])
     kind = rng.choice(kinds)
-    if kind == "evolve":
-        k = rng.randint(0, nf)
-        ops.append({"evolve": {"i": i, "changes": [[f, rng.randrange(3)] for f in rng.sample(range(nf), k)]}})
+    if kind in ("evolve", "assoc"):
+        # change sets of every size, single fields most often (a change that touches only one kind of field)
+        k = rng.choice([0, 1, 1, 1, 2, nf]) if nf else 0
+        k = min(k, nf)
+        ops.append({kind: {"i": i, "changes": [[f, rng.randrange(3)] for f in rng.sample(range(nf), k)]}})
     else:
         ops.append({kind: {"i": i}})
     if nf and (not frozen or rng.random() < 0.1) and rng.random() < 0.7:
@@ -659,7 +723,7 @@ def _rand_history(rng, chain, nf, n_insts, max_ops, copy_ok=None):
         elif r < 0.85:
             k = rng.randint(0, nf)
             ch = [[f, rng.randrange(3)] for f in rng.sample(range(nf), k)] if nf else []
-            ops.append({"evolve": {"i": i, "changes": ch}})
+            ops.append({("assoc" if uniform and rng.random() < 0.4 else "evolve"): {"i": i, "changes": ch}})
             n += 1
         elif nf and i not in hashed and (not frozen or rng.random() < 0.2):
             ops.append({"set": {"i": i, "f": rng.randrange(nf), "v": rng.randrange(3)}})
@@ -679,7 +743,7 @@ def _inst_cases(rng, chain, count=1, max_ops=8, pairs=None, root=None):
     exc = bool(root)
     eqc, hcode, key_map = _rand_domain(rng)
     case = mk_case(chain, exc_base=exc, eqc=eqc, hcode=hcode, key_map=key_map, **base_cfg)
-    kinds, classes, _, _ = build(dict(case, insts=[[0]]))
+    kinds, classes = build(dict(case, insts=[[0]]))[:2]
     if classes is None:
         yield case  # a definition error: still a row of the table
         return
@@ -792,6 +856,32 @@ def _pair_block(rng, k_max):
                 yield chain, (x, vecs)
 
 
+def _change_block(rng, k_max):
+    """hash, then assoc / evolve with every non-empty set of changed fields, for every per-field eq x hash
+    setting (k <= k_max), then hash the result and the original again"""
+    settings = [(e, h) for e in ("t", "f", "key") for h in (None, True, False)]
+    for k in range(1, k_max + 1):
+        for combo in itertools.product(settings, repeat=k):
+            fields = [fld(FIELD_NAMES[i], e, h) for i, (e, h) in enumerate(combo)]
+            for mask in range(1, 2 ** k):
+                for kind in ("assoc", "evolve"):
+                    cache = "t" if rng.random() < 0.8 else "unset"
+                    api = rng.choice(["attrS", "attrS", "define", "frozen"])
+                    slots = "f" if rng.random() < 0.6 else rng.choice(["unset", "t"])
+                    chain = [cls_spec(api, unsafeHash="t", cacheHash=cache, slots=slots,
+                                      getstateSetstate=rng.choice(["unset", "unset", "t"]),
+                                      fields=[dict(f) for f in fields])]
+                    x = [rng.randrange(3) for _ in range(k)]
+                    ch = [[f, (x[f] + rng.choice([1, 2])) % 3] for f in range(k) if mask >> f & 1]
+                    y = list(x)
+                    for f, v in ch:
+                        y[f] = v
+                    ops = [{"hash": {"i": 0, "alt": list(y)}}, {kind: {"i": 0, "changes": ch}},
+                           {"hash": {"i": 1, "alt": list(x)}}, {"hash": {"i": 1, "alt": list(y)}},
+                           {"hash": {"i": 0, "alt": list(x)}}]
+                    yield chain, x, ops
+
+
 def gen_cases(tier, rng):
     quick = tier == "quick"
     # ---- class-level decision table
@@ -802,7 +892,7 @@ def gen_cases(tier, rng):
         c = _table_case(row, rng, vary=False)
         if c is not None:
             yield c
-    for row in (rows[n_core:n_core + 3000] if quick else rows * 3):
+    for row in (rows[n_core:n_core + 2800] if quick else rows * 3):
         c = _table_case(row, rng, vary=True)
         if c is not None:
             yield c
@@ -823,8 +913,16 @@ def gen_cases(tier, rng):
         blocks = _pair_block(rng, 2)
     for chain, pairs in blocks:
         yield from _inst_cases(rng, _dress_names(rng, chain), pairs=pairs)
+    # ---- change sets of assoc / evolve after a hash
+    for chain, x, ops in itertools.chain.from_iterable(_change_block(rng, 2) for _ in range(2 if quick else 8)):
+        if _k3_shape(chain):
+            continue
+        eqc, hcode, key_map = _rand_domain(rng)
+        case = mk_case(_dress_names(rng, chain, p=0.2), eqc=eqc, hcode=hcode, key_map=key_map, insts=[x], ops=ops)
+        if build(case)[1] is not None:
+            yield case
     # ---- random chains and histories
-    for _ in range(3800 if quick else 60000):
+    for _ in range(3400 if quick else 60000):
         root = rng.choice(ROOTS) if rng.random() < 0.12 else None
         yield from _inst_cases(rng, _rand_chain(rng), count=4 if quick else 8, root=root)
 
@@ -869,7 +967,7 @@ def shrink(case):
     if ops:
         yield dict(case, ops=ops[:-1])
     if len(case["insts"]) > 1 and all(next(iter(op.values()))["i"] == 0 for op in ops) and not any(
-            next(iter(op)) in ("copy", "deepcopy", "pickle", "evolve") for op in ops):
+            next(iter(op)) in ("copy", "deepcopy", "pickle", "evolve", "assoc") for op in ops):
         yield dict(case, insts=case["insts"][:1])
     base = cls_spec()
     for k, c in enumerate(case["chain"]):
@@ -905,7 +1003,7 @@ def neighbours(case, rng):
                     if not _is_legacy_or_mixed(c2):
                         cand = dict(case, chain=chain[:k] + [c2] + chain[k + 1:])
                         if case["ops"] and not _uniform(cand["chain"], case["excBase"]) and any(
-                                next(iter(op)) in ("copy", "deepcopy", "pickle") for op in case["ops"]):
+                                next(iter(op)) in ("copy", "deepcopy", "pickle", "assoc") for op in case["ops"]):
                             continue
                         yield cand
     nf = sum(len(c["fields"]) for c in chain if c["api"] != "plain")
